@@ -99,7 +99,11 @@ def run_checks(ids, all_checks):
         try:
             props = [f"C{i:02d}" for i in range(1, 21)] if all_checks else [meta["property"]]
             for p in props:
-                rc, out = sh([os.path.join(VERIF, "check"), p, "quick"], cwd=VERIF, timeout=3000)
+                scratch_ev = tempfile.mkdtemp(prefix="seedev")
+                try:
+                    rc, out = sh([os.path.join(VERIF, "check"), p, "quick"], cwd=VERIF, timeout=3000, env=dict(os.environ, VERIF_EVIDENCE_DIR=scratch_ev))
+                finally:
+                    shutil.rmtree(scratch_ev, ignore_errors=True)
                 viol = [ln for ln in out.splitlines() if ln.startswith("VIOLATION")]
                 detail = ""
                 if viol:
